@@ -110,7 +110,7 @@ Combined Income Tax Rate,0.392
 Gross Revenue Tax Rate,0
 Investment Tax Credit Rate,0
 Property Tax Rate,0
-Inflation Rate During Construction,0
+Inflation Rate During Construction,0.05
 Print Output to Console,0
 Time steps per year,4
 """
@@ -160,6 +160,10 @@ GEO_INPUTS = {
     'Production Flow Rate per Well': dict(ok=[('uniform', 80, 120), ('lognormal', 4.6, 0.05)], edge=[]),
     'Circulation Pump Efficiency': dict(ok=[('uniform', 0.6, 0.9)], edge=[('normal', 1.0, 0.05)]),
     'Plant Lifetime': dict(ok=[('binomial', 50, 0.6)], edge=[], discrete=True),
+    # names that are a strict prefix of another parameter line of the base inputs ('Inflation Rate During Construction',
+    # 'Reservoir Volume Option'): whatever the driver does to build an iteration's input must not confuse the two
+    'Inflation Rate': dict(ok=[('uniform', 0.01, 0.04), ('triangular', 0.015, 0.025, 0.035)], edge=[('uniform', 0.9, 1.1)]),
+    'Reservoir Volume': dict(ok=[('uniform', 5e8, 2e9), ('lognormal', 20.7, 0.1)], edge=[]),
 }
 
 GEO_OUTPUTS = [
